@@ -129,7 +129,7 @@ pub fn check_summary(msgs: &[Message]) -> Check {
         ensure_eq!(g.end_time, last.header().date_time(), "group:end_time", "group {}", gi);
         match key {
             Key::Radial(e) => {
-                ensure_eq!(g.message_type, MessageType::RDADigitalRadarDataGenericFormat, "group:message_type", "group {}", gi);
+                crate::ensure_same!(g.message_type, MessageType::RDADigitalRadarDataGenericFormat, "group:message_type", "group {}", gi);
                 ensure_eq!(g.elevation_number, Some(*e), "group:elevation_number", "group {}", gi);
                 ensure_eq!(g.is_continued, seen_elevations.contains(e), "group:is_continued", "group {} elevation {} (earlier elevations {:?})", gi, e, seen_elevations);
                 seen_elevations.insert(*e);
@@ -171,7 +171,7 @@ pub fn check_summary(msgs: &[Message]) -> Check {
                 ensure!(g.rda_status_info.is_none() && g.vcp_info.is_none(), "group:foreign-info", "radial group {} carries status/VCP info", gi);
             }
             Key::Status => {
-                ensure_eq!(g.message_type, MessageType::RDAStatusData, "group:message_type", "group {}", gi);
+                crate::ensure_same!(g.message_type, MessageType::RDAStatusData, "group:message_type", "group {}", gi);
                 ensure_eq!(g.message_count, 1, "grouping:status-not-alone", "group {}", gi);
                 ensure!(!g.is_continued, "group:is_continued", "status group {} marked continued", gi);
                 let info = g.rda_status_info.as_ref().ok_or_else(|| Fail::new("group:status-info-missing", format!("group {}", gi)))?;
@@ -204,7 +204,7 @@ pub fn check_summary(msgs: &[Message]) -> Check {
                 }
             }
             Key::Vcp => {
-                ensure_eq!(g.message_type, MessageType::RDAVolumeCoveragePattern, "group:message_type", "group {}", gi);
+                crate::ensure_same!(g.message_type, MessageType::RDAVolumeCoveragePattern, "group:message_type", "group {}", gi);
                 ensure_eq!(g.message_count, 1, "grouping:vcp-not-alone", "group {}", gi);
                 ensure!(!g.is_continued, "group:is_continued", "VCP group {} marked continued", gi);
                 let info = g.vcp_info.as_ref().ok_or_else(|| Fail::new("group:vcp-info-missing", format!("group {}", gi)))?;
@@ -225,7 +225,7 @@ pub fn check_summary(msgs: &[Message]) -> Check {
                 }
             }
             Key::Other(t) => {
-                ensure_eq!(g.message_type, *t, "group:message_type", "group {}", gi);
+                crate::ensure_same!(g.message_type, *t, "group:message_type", "group {}", gi);
                 ensure!(!g.is_continued, "group:is_continued", "group {} of type {:?} marked continued", gi, t);
                 ensure!(g.data_types.is_none() && g.rda_status_info.is_none() && g.vcp_info.is_none(), "group:foreign-info", "group {}", gi);
             }
